@@ -234,7 +234,11 @@ target(U + 'limit_iterable', area='Limits', owners=['C08'], raises=True, errors=
        note='the counting generator consumed to the end: it raises iff the sized check would')
 
 # ------------------------------------------------------------------------------------------------ C13 collections / queries
-area('Seq', imports=['Yaql.Model.PyPrelude', 'Yaql.Model.Seq', 'Yaql.Model.Limits', 'Yaql.Gen.SrcLimits'],
+area('Seq', imports=['Yaql.Model.PyPrelude', 'Yaql.Model.Seq'])
+# the streaming operators that are plain itertools calls: shared by C13 (values) and C14 (consumption)
+area('Stream', imports=['Yaql.Model.PyPrelude', 'Yaql.Model.Seq'])
+# sequence repetition with its memory estimate: shared by C13 (value) and C08 (quota)
+area('Repeat', imports=['Yaql.Model.PyPrelude', 'Yaql.Model.Seq', 'Yaql.Model.Limits', 'Yaql.Gen.SrcLimits'],
      uses=['Limits'], drv_imports=['Yaql.Gen.Sizes'], ambient_values=SIZES_VALUES)
 
 Q = 'yaql.standard_library.queries:'
@@ -280,17 +284,17 @@ target(Q + 'enumerate_', area='Seq', owners=['C13'],
 target(Q + 'append', area='Seq', owners=['C13'],
        params=[('collection', VL), ('args', VL)], ret=VL,
        model=SEQ + 'append collection args', theorem='append_src_eq')
-target(Q + 'take_while', area='Seq', owners=['C13', 'C14'],
+target(Q + 'take_while', area='Stream', owners=['C13', 'C14'],
        params=[('collection', VL), ('predicate', PRED)], ret=VL,
        model=SEQ + 'takeWhile predicate collection', theorem='take_while_src_eq')
-target(Q + 'skip_while', area='Seq', owners=['C13', 'C14'],
+target(Q + 'skip_while', area='Stream', owners=['C13', 'C14'],
        params=[('collection', VL), ('predicate', PRED)], ret=VL,
        model=SEQ + 'skipWhile predicate collection', theorem='skip_while_src_eq')
-target(Q + 'skip', area='Seq', owners=['C13', 'C14'], raises=True,
+target(Q + 'skip', area='Stream', owners=['C13', 'C14'], raises=True,
        params=[('collection', VL), ('count', 'int')], ret=VL,
        model='if Yaql.Py.isliceOk count then .ok (%sskip count.toNat collection) else .error .valueError' % SEQ,
        theorem='skip_src_eq')
-target(Q + 'limit', area='Seq', owners=['C13', 'C14'], raises=True,
+target(Q + 'limit', area='Stream', owners=['C13', 'C14'], raises=True,
        params=[('collection', VL), ('count', 'int')], ret=VL,
        model='if Yaql.Py.isliceOk count then .ok (%stake count.toNat collection) else .error .valueError' % SEQ,
        theorem='limit_src_eq')
@@ -306,14 +310,14 @@ target(Q + 'split_where', area='Seq', owners=['C13'], raises=True, fuel=True, fu
        params=[('collection', VL), ('predicate', PRED), ('to_list', 'fn(%s) -> %s' % (VL, VL))], ret='[%s]' % VL,
        fix={'to_list': TOLIST},
        model='.ok (%ssplitWhere predicate collection)' % SEQ, theorem='split_where_src_eq')
-target(C + 'list_by_int', area='Seq', owners=['C13', 'C08'], raises=True, ambient=SIZES,
+target(C + 'list_by_int', area='Repeat', owners=['C13', 'C08'], raises=True, ambient=SIZES,
        params=[('left', VL), ('right', 'int'), ('engine', 'int')], ret=VL,
        pre=lambda left, right, engine: abs(right) < 2 ** 20,
        model='if Yaql.Limits.listByIntCheck sizes engine kind left.length right then .ok (%slistByInt left right) '
              'else .error (.other 1)' % SEQ, theorem='list_by_int_src_eq',
        note='engine = the memory quota; sequence repetition beyond 2^20 copies is outside the differential '
             '(MemoryError / OverflowError of the allocator)')
-target(C + 'int_by_list', area='Seq', owners=['C13'], raises=True, ambient=SIZES,
+target(C + 'int_by_list', area='Repeat', owners=['C13'], raises=True, ambient=SIZES,
        params=[('left', 'int'), ('right', VL), ('engine', 'int')], ret=VL,
        pre=lambda left, right, engine: abs(left) < 2 ** 20,
        model='if Yaql.Limits.listByIntCheck sizes engine kind right.length left then .ok (%slistByInt right left) '
